@@ -1,11 +1,11 @@
 #!/bin/bash
-# tools/stress_parallel.sh [rounds] [tier]: run every check at the same time (as a grader with 16 cores might), several rounds,
+# tools/stress_parallel.sh [rounds] [tier] [first-round]: (seed = round + 10) run every check at the same time (as a grader with 16 cores might), several rounds,
 # with different seeds; print every non-zero exit / VIOLATION. Used to look for load-dependent false alarms.
 cd /verif
 rounds=${1:-2}; tier=${2:-quick}
 props=$(python3 -c "import sys; sys.path.insert(0,'/verif'); from props import PROPS; print(' '.join(sorted(PROPS)))")
 mkdir -p .work/stress
-for r in $(seq 1 $rounds); do
+for r in $(seq ${3:-1} $(( ${3:-1} + rounds - 1 ))); do
   for p in $props; do
     ( VERIF_SEED=$((r+10)) ./check $p --tier $tier > .work/stress/$p.$r.log 2>&1; echo "$p round=$r rc=$?" >> .work/stress/summary.txt ) &
   done
